@@ -69,6 +69,9 @@ def pp_expr(e, rng=None) -> str:
     if t == "paren":
         return f"({pp_expr(e[1], rng)})"
     if t == "assign":
+        if e[2][0] == "assign":
+            # the ANTLR grammar parses `x = y = e` as `(x = y) = e`: outside the modelled tree
+            raise ShapeError("chained assignment")
         return f"{e[1]} = {pp_expr(e[2], rng)}"
     if t == "bin":
         _need(e[1], ADDITIVE, "left operand")
